@@ -4,6 +4,7 @@
 //! Makes use of sse2, ssse3, and aes extensions as available.
 
 #![cfg_attr(not(feature = "std"), no_std)]
+#![allow(unexpected_cfgs)] // cfg(cryptocorrosion_verif): verification hooks
 
 pub extern crate digest;
 #[cfg(feature = "std")]
@@ -95,6 +96,15 @@ macro_rules! impl_digest {
                 compressor.finalize_dirty()
             }
         }
+        #[cfg(cryptocorrosion_verif)]
+        impl $groestl {
+            /// Verification hook: overwrite the chaining value (given in the specification's byte order, as 64-bit
+            /// little-endian words of the state bytes) and the block counter (the block buffer is left as is).
+            pub fn verif_set_state(&mut self, cv: [u64; $bits::USIZE / 64], block_counter: u64) {
+                self.compressor = $compressor::new(Align16(cv).0);
+                self.block_counter = block_counter;
+            }
+        }
         impl Default for $groestl {
             fn default() -> Self {
                 Self::new_truncated($bits::U32 / 2)
@@ -140,6 +150,13 @@ impl_digest!(Groestl512, Compressor1024, U1024);
 
 #[derive(Clone, Debug)]
 pub struct Groestl224(Groestl256);
+#[cfg(cryptocorrosion_verif)]
+impl Groestl224 {
+    /// Verification hook: access to the wrapped 512-bit-state hasher.
+    pub fn verif_inner(&mut self) -> &mut Groestl256 {
+        &mut self.0
+    }
+}
 impl Default for Groestl224 {
     fn default() -> Self {
         Groestl224(Groestl256::new_truncated(224))
@@ -171,6 +188,13 @@ impl digest::Reset for Groestl224 {
 
 #[derive(Clone, Debug)]
 pub struct Groestl384(Groestl512);
+#[cfg(cryptocorrosion_verif)]
+impl Groestl384 {
+    /// Verification hook: access to the wrapped 1024-bit-state hasher.
+    pub fn verif_inner(&mut self) -> &mut Groestl512 {
+        &mut self.0
+    }
+}
 impl Default for Groestl384 {
     fn default() -> Self {
         Groestl384(Groestl512::new_truncated(384))
